@@ -5,7 +5,7 @@ from props import codec_common as cc
 
 THEOREMS = ['C05_known_fields_same', 'C05_header_fields_kept', 'C05_body_fields_kept', 'C05_section_simulation', 'C05_finding_handover', 'C05_finding_unknown_in_header', 'C05_finding_known_field_lost', 'C05_finding_unknown_in_group']
 OK = re.compile(r'^ok (H\[.*\] B\[.*\] T\[.*\]) re=(\S+)$')
-UNKNOWN_TAGS = (5000, 7000, 9000, 20000, 65535, 1234)
+UNKNOWN_TAGS = (5000, 7000, 9000, 20000, 65535, 1234, 70000, 100001, 1000000)      # the last three wrap (mod 65536) to 4464, 34465, 16960: unknown as well
 
 
 def gen(rng, sc, n):
